@@ -18,6 +18,9 @@ def gen_cfg(rng, max_vars=4, adversarial=None, eps=True, max_prods=8):
     if adversarial:
         k = rng.randint(1, 2)
         vs = vs[:max(1, nv - k)] + rng.sample(ADV_VARS, k)
+        if rng.random() < 0.3:
+            # a run of names the binarisation would allocate next (a grammar built from an earlier normal form)
+            vs = vs[:max(1, nv - 2)] + ["C#CNF#1", "C#CNF#2"] + (["C#CNF#3"] if rng.random() < 0.4 else [])
         if rng.random() < 0.5:
             ts = ts[:max(1, nt - 1)] + rng.sample(ADV_TERS, 1)
         if rng.random() < 0.3:
